@@ -251,6 +251,16 @@ def run_cases(cases, ctx):
                     obj, name = build_target(m, mi, log)
                     oid = "t%d" % mi
                     lab.daemon.register(obj, oid)
+                    if mi % 3 == 1:
+                        # the application has taken a proxy for its own object from the daemon and changed that proxy's member lists
+                        # (as the http gateway does with the oneway list): what the daemon tells other clients is not affected
+                        px = lab.daemon.proxyFor(obj)
+                        for members in (px._pyroMethods, px._pyroAttrs, px._pyroOneway):
+                            if isinstance(members, set):
+                                members.discard(name)
+                                members.add("planted_by_a_proxy_user")
+                                members.add(name) if members is px._pyroOneway and m["kind"] in ("imethod", "smethod", "cmethod") and not m["oneway"] else None
+                        del px
                     kind, r = exchange(L.invoke_msg("Pyro.Daemon", "get_metadata", [oid], ser="serpent"))
                     meta = serializers.serializers["serpent"].loads(r["data"]) if kind == "result" else {"methods": [], "attrs": [], "oneway": ["<no metadata>"]}
                     built[mi] = (obj, name, log, oid, meta)
